@@ -2,6 +2,7 @@ package main
 
 import (
 	"fmt"
+	"github.com/pip-services3-gox/pip-services3-expressions-gox/tokenizers"
 	"math"
 	"strings"
 	"time"
@@ -300,6 +301,60 @@ var allOpLex = map[int][]string{
 	parsers.In: {"IN"}, parsers.Like: {"LIKE"}, parsers.Not: {"NOT"}, parsers.Is: {"IS"}, parsers.Null: {"NULL"},
 }
 
+// operator spellings of the expression language and their token-type codes
+var opCodes = map[string]int{"(": 1, ")": 2, "[": 3, "]": 4, "+": 5, "-": 6, "*": 7, "/": 8, "%": 9, "^": 10, "=": 11, "<>": 12, "!=": 12,
+	">": 13, "<": 14, ">=": 15, "<=": 16, "<<": 17, ">>": 18, "AND": 19, "OR": 20, "XOR": 21, "IS": 22, "IN": 23, "NULL": 26, "NOT": 27, "LIKE": 28, ",": 32}
+
+// lexClassOracle: the class of every tokenizer token decides the class of the expression token, independently
+// of the parser — a Word (identifier or "quoted identifier") is a variable whatever it spells, a Quoted token
+// a string constant, numbers constants, TRUE/FALSE Boolean constants, other keywords and symbols operators
+func lexClassOracle(expr string, initial []string) string {
+	var want []string
+	for _, t := range exprTokens(expr) {
+		switch t.Type() {
+		case tokenizers.Whitespace, tokenizers.Comment:
+			continue
+		case tokenizers.Word:
+			want = append(want, "35:"+strRunes(t.Value()))
+		case tokenizers.Quoted:
+			if t.Value() == "" {
+				want = append(want, "36:s")
+			} else {
+				want = append(want, "36:s"+strings.ReplaceAll(strRunes(t.Value()), ",", "."))
+			}
+		case tokenizers.Integer, tokenizers.Float:
+			want = append(want, "36:")
+		case tokenizers.Keyword, tokenizers.Symbol:
+			up := strings.ToUpper(t.Value())
+			if t.Type() == tokenizers.Keyword && (up == "TRUE" || up == "FALSE") {
+				want = append(want, map[string]string{"TRUE": "36:b1", "FALSE": "36:b0"}[up])
+			} else if code, ok := opCodes[up]; ok {
+				want = append(want, fmt.Sprint(code))
+			} else {
+				return "" // unknown symbol: rejected by the lexical analysis, handled elsewhere
+			}
+		default:
+			return ""
+		}
+	}
+	if len(want) != len(initial) {
+		return fmt.Sprintf("the tokenizer delivers %d significant tokens, the lexical analysis %d expression tokens", len(want), len(initial))
+	}
+	for i, w := range want {
+		g := initial[i]
+		if w == "36:" {
+			if !strings.HasPrefix(g, "36:i") && !strings.HasPrefix(g, "36:f") {
+				return fmt.Sprintf("token #%d is a number but became %s", i, g)
+			}
+			continue
+		}
+		if g != w {
+			return fmt.Sprintf("token #%d (class decided by the tokenizer) should become %s but became %s", i, w, g)
+		}
+	}
+	return ""
+}
+
 func typesOfInitial(initial []string) []int {
 	out := make([]int, len(initial))
 	for i, s := range initial {
@@ -325,6 +380,12 @@ func runParseCase(c *Ctx, expr string, label string) parseOut {
 	if o.status != "" {
 		c.fail(Failure{Kind: "oracle", Op: "expr " + strRunes(expr), Impl: impl, Note: fmt.Sprintf("SetExpression(%q) did not return normally: %s", expr, o.status)})
 		return o
+	}
+	if !o.lexical && o.status == "" {
+		if msg := lexClassOracle(expr, o.initial); msg != "" {
+			c.fail(Failure{Kind: "oracle", Op: "expr " + strRunes(expr), Impl: o.implLine(), Note: msg})
+			return o
+		}
 	}
 	if c.Prop == "C02" {
 		reuseParse(c, expr, o)
